@@ -2520,8 +2520,7 @@ Tokenizer_parse_table(Tokenizer *self)
         Py_DECREF(style);
         while (!Tokenizer_IS_CURRENT_STACK(self, restore_point)) {
             Tokenizer_memoize_bad_route(self);
-            trash = Tokenizer_pop(self);
-            Py_XDECREF(trash);
+            Tokenizer_delete_top_of_stack(self);
         }
         self->head = reset;
         if (Tokenizer_emit_char(self, '{')) {
